@@ -446,6 +446,8 @@ func runC09(c *Ctx) {
 	headerOwnsItsStorage(c, "C09-D12")
 	c.Rule("C09-D15", "an empty position is not a placeholder (F48): in reconstructBinaryValue the placeholder is parsed only when the position holds bytes, and Binary.UnmarshalJSON reads null back as an absent Binary", 2)
 	nullBinaryNotAPlaceholder(c, "C09-D15")
+	c.Rule("C09-D16", "Encode can replace a Binary wherever it finds one (F62, known finding): no deconstruct function gives up with errNonSettableValue", 1)
+	encodeHandlesNonSettablePositions(c, "C09-D16")
 	c09MapWalkers(c)
 	c09FrameWriters(c)
 	c09ReconstructorOwnsFrames(c)
